@@ -233,6 +233,12 @@ func (p *Proxy) call(ctx context.Context, m *GoMethod, args ...Object) Object {
 		return ArgsErrorf("args error: %s() requires %d arguments, but %d were given",
 			methodFullName, minArgs, len(inputs))
 	}
+	// Every argument the script passed must have been consumed by a
+	// parameter: surplus arguments are an error, not silently dropped.
+	if argIndex < len(args) {
+		return ArgsErrorf("args error: %s() takes at most %d arguments, but %d were given",
+			methodFullName, argIndex, len(args))
+	}
 	var outputs []reflect.Value
 	if isVariadic && len(inputs) == numIn {
 		// the variadic parameter was given (as a list, converted to a slice)
